@@ -473,6 +473,34 @@ func hobPos(n, total int) string {
 	return "middle"
 }
 
+// c18DigestAlgs: digest records written down byte by byte — a TPM algorithm id (known to the tools
+// or not) followed by as many bytes as that algorithm's digests have. Whatever the decoder
+// accepts must come back out of the encoder unchanged; what it does not know it must refuse.
+func c18DigestAlgs(r *core.Run) {
+	algs := []struct {
+		id   uint16
+		size int
+	}{{0x0004, 20}, {0x000B, 32}, {0x000C, 48}, {0x000D, 64}, {0x0012, 32}, {0x0027, 32}, {0x0028, 48}, {0x0029, 64}, {0x0000, 0}, {0x0010, 0}}
+	a := algs[r.Intn(len(algs), "digest-alg")]
+	raw := append(le(2, uint64(a.id)), bytes.Repeat([]byte{byte(0x30 + r.Intn(9, "digest-fill"))}, a.size+8)...) // eight more bytes follow in the stream
+	var d eventlog.TaggedDigest
+	rd := bytes.NewReader(raw)
+	err := d.Unmarshal(rd)
+	used := len(raw) - rd.Len()
+	r.Eval(fmt.Sprintf("TaggedDigest|alg=%#04x|accepted=%v", a.id, err == nil), true)
+	if err != nil {
+		return
+	}
+	var out bytes.Buffer
+	if merr := d.Marshal(&out); merr != nil {
+		r.Fail("truncation-accepted", "TaggedDigest/decoder-knows-more-than-encoder", "TaggedDigest: a record with algorithm id %#04x is decoded (%d bytes taken) but the decoded value cannot be encoded: %v", a.id, used, merr)
+		return
+	}
+	if !bytes.Equal(out.Bytes(), raw[:used]) {
+		r.Fail("chunking-changes-result", "TaggedDigest/roundtrip-of-accepted-bytes", "TaggedDigest: the %d bytes accepted for algorithm id %#04x re-encode to %d other bytes", used, a.id, out.Len())
+	}
+}
+
 func firstDiff(a, b []byte) int {
 	for i := 0; i < len(a) && i < len(b); i++ {
 		if a[i] != b[i] {
@@ -498,6 +526,9 @@ func runC18(r *core.Run) {
 	}
 	if r.Chance(15, "pi-hob?") {
 		c18Hob(r)
+	}
+	if r.Chance(10, "digest-algs?") {
+		c18DigestAlgs(r)
 	}
 	// the value under test and a factory for empty values of its type
 	var v streamable
